@@ -237,6 +237,52 @@ def _ec_post(cfg, i, path):
     return st['bad_before'] == [] and st['bad_after'] == []
 
 
+# ------------------------------------------------------------------ (c) the two ends as the public API shows them, with partially loaded collections
+def _pm_configs(tier):
+    return [dict(rel=r, warm=w, op=o) for r in ('m2m', 'one2many') for w in ('none', 'ask', 'ask_other_side', 'len', 'count') for o in ('link_a', 'link_b', 'unlink_a', 'unlink_b')]
+
+
+def _pm_case(cfg, values):
+    M = c13.model()
+
+    def setup(run): c13._reset_session()
+    def teardown(run):
+        try: orm.rollback()
+        except Exception: pass
+        c13._reset_session()
+
+    def call():
+        P, G, C = M.Person, M.Group, M.Course
+        with orm.db_session:
+            link = cfg['op'].startswith('link')
+            if cfg['rel'] == 'm2m':
+                a, x = (P[4], C[3]) if link else (P[2], C[2])
+                coll = lambda: a.courses; back = lambda: a in x.students
+                ops = dict(link_a=lambda: a.courses.add(x), link_b=lambda: x.students.add(a), unlink_a=lambda: a.courses.remove(x), unlink_b=lambda: x.students.remove(a))
+            else:
+                a, x = (G[2], P[1]) if link else (G[2], P[3])
+                coll = lambda: a.students; back = lambda: x.group is a
+                ops = dict(link_a=lambda: a.students.add(x), link_b=lambda: setattr(x, 'group', a), unlink_a=lambda: a.students.remove(x), unlink_b=lambda: setattr(x, 'group', None))
+            w = cfg['warm']
+            if w == 'ask': first = x in coll()
+            elif w == 'ask_other_side': first = back()
+            elif w == 'len': first = len(coll())
+            elif w == 'count': first = coll().count()
+            else: first = None
+            ops[cfg['op']]()
+            r = (x in coll(), back(), x in set(coll()))
+            orm.rollback()
+            return link, first, r
+    return Case(call, {}, [], setup, teardown)
+
+
+def _pm_post(cfg, i, path):
+    if path.outcome != 'ret': return False
+    link, first, r = path.value
+    if cfg['warm'] in ('ask', 'ask_other_side') and first is not (not link): return False
+    return r == (link, link, link)
+
+
 CONTRACTS = [
     Contract('Set.reverse_add_remove', ['pony.orm.core:Set.reverse_add', 'pony.orm.core:Set.reverse_remove'], _ra_configs, _ra_case,
              [('item_membership_and_pending_sets_updated_consistently', _ra_post), ('do_then_undo_is_identity', _ra_undo_identity)],
@@ -247,5 +293,8 @@ CONTRACTS = [
              ['pony.orm.core:Attribute.update_reverse', 'pony.orm.core:Attribute.db_update_reverse', 'pony.orm.core:Attribute.__set__', 'pony.orm.core:Set.__set__',
               'pony.orm.core:SetInstance.add', 'pony.orm.core:SetInstance.remove', 'pony.orm.core:Entity._delete_', 'pony.orm.core:Entity.__init__'],
              _ec_configs, _ec_case, [('every_pair_of_reverse_attributes_agrees', _ec_post)], level='bounded',
-             bound='the 26 modification scenarios of C13 on one model (1-1, many-to-one, many-to-many, cascade), with and without one injected callee failure'),
+             bound='the modification scenarios of C13 on one model (1-1, many-to-one, many-to-many, cascade), with and without one injected callee failure'),
+    Contract('membership_seen_from_both_ends', ['pony.orm.core:SetInstance.__contains__', 'pony.orm.core:SetInstance.add', 'pony.orm.core:SetInstance.remove', 'pony.orm.core:Set.load'],
+             _pm_configs, _pm_case, [('both_ends_answer_the_same_after_link_or_unlink', _pm_post)], level='bounded',
+             bound='many-to-many and one-to-many, 5 warm-up states of a partially loaded collection (incl. an earlier negative membership answer), link / unlink from either side'),
 ]
